@@ -104,6 +104,10 @@ class Run:
         with open(os.path.join(hdir, "mode.rs"), "w") as f:
             f.write("#[allow(dead_code)] pub(super) const PLAYBACK: bool = false;\n")
         self.staged_sources = srcs
+        # per-property generated support code that depends on the staged source (e.g. a struct's current field list)
+        hook = spec.get("stage_hook")
+        if hook:
+            hook(st, hdir)
         return st
 
     # -- Kani ----------------------------------------------------------------------------------
@@ -113,6 +117,9 @@ class Run:
 
     def harnesses(self):
         hs = [h for h in self.spec["harnesses"] if self.tier in h.tiers]
+        only = os.environ.get("VERIF_ONLY")  # debugging aid: comma-separated harness names
+        if only:
+            hs = [h for h in hs if h.name in only.split(",")]
         open_keys = {f["key"] for f in self.open_findings}
         # finding witnesses only run while the finding is listed open
         hs = [h for h in hs if not (h.expect == "finding" and h.kf not in open_keys)]
